@@ -20,6 +20,9 @@ if-statements: a branch either always returns (then the rest is the else-continu
 assigns are merged: `let v := if c then .. else .. in`); anything else is out of grammar.
 Loops: the variables assigned by the body are the loop state; the body is lambda-lifted into a top-level per-index step Definition
 (captured variables become parameters), the loop is `fold_left step <index list> state`.
+Strictness (DESIGN §9.4): a using-declaration must be one the client lists (Hooks.known_usings); the tokens of a throw expression
+are checked (exception type, literals, names, + ( ) , .); a statement after return / throw / `while (true)` / an if whose branches
+both return (unreachable code) is out of grammar.
 Everything else raises OutOfGrammar.  Deterministic, python3 stdlib only."""
 import re, unicodedata
 from fractions import Fraction
@@ -297,8 +300,8 @@ class StmtParser:
             self.eat()
             return None
         if (k, v) == ("id", "using"):
-            self.until(";")
-            return None
+            toks, _ = self.until(";")
+            return ("using", "".join(t[1] + (" " if t[0] == "id" else "") for t in toks).strip())
         if (k, v) == ("id", "if"):
             self.eat()
             c = self.group("(", ")")
@@ -313,7 +316,15 @@ class StmtParser:
             e, _ = self.until(";")
             return ("return", e or None)
         if (k, v) == ("id", "throw"):
-            self.until(";")
+            self.eat()
+            toks, _ = self.until(";")
+            # the exception object is not translated, but its tokens are accounted for: <exception type>(<literals and
+            # conversions of names, concatenated>)
+            if not toks or toks[0][0] != "id" or not re.search(r"(error|_argument|_range|exception)$", toks[0][1]):
+                raise OutOfGrammar("%s: throw of %r" % (self.what, " ".join(t[1] for t in toks)[:40]))
+            for kk, vv in toks[1:]:
+                if not (kk in ("str", "id", "num") or (kk == "op" and vv in ("+", "(", ")", ",", "."))):
+                    raise OutOfGrammar("%s: %r in a throw expression" % (self.what, vv))
             return ("throw",)
         if (k, v) == ("id", "while"):
             self.eat()
@@ -766,6 +777,7 @@ class Expr:
 
 class Hooks:
     """client-specific names; override in the translators"""
+    known_usings = ()           # using-declarations (as StmtParser renders them) a unit may contain
 
     def resolve(self, ex, name, call, has_rest):
         return None
@@ -880,6 +892,15 @@ class Exec:
             return self.block(s[1], 0, env, leave, ret)
         if tag == "block_flat":
             return self.block(s[1], 0, env, rest, ret)
+        if tag == "using":
+            # a using-declaration changes what names mean: only the ones the client knows (Hooks.known_usings) are accepted
+            if s[1] not in self.u.h.known_usings:
+                raise OutOfGrammar("%s: using-declaration %r" % (self.what, s[1]))
+            return rest(env)
+        if tag == "while_true" and i + 1 < len(stmts):
+            raise OutOfGrammar("%s: statement after `while (true)` (unreachable)" % self.what)
+        if tag in ("return", "throw") and i + 1 < len(stmts):
+            raise OutOfGrammar("%s: statement after %s in the same block (unreachable)" % (self.what, tag))
         if tag == "return":
             return ret(env, s[1])
         if tag == "throw":
@@ -940,18 +961,20 @@ class Exec:
         if tag == "call":
             return self.call_stmt(env, s[1], rest)
         if tag == "if":
-            return self.if_(env, s, rest, ret)
+            return self.if_(env, s, rest, ret, i + 1 < len(stmts))
         if tag in ("for_range", "for_up", "for_down", "foreach"):
             return self.loop(env, s, rest)
         if tag == "while_true":
             return self.while_true(env, s[1])
         raise OutOfGrammar("%s: statement %s" % (self.what, tag))
 
-    def if_(self, env, s, rest, ret):
+    def if_(self, env, s, rest, ret, has_rest=False):
         _, ctoks, tb, eb = s
         c = self.ex(ctoks, env, "B")[1]
         kt, ct = self.outcomes(tb, env)
         ke, ce = self.outcomes(eb, env) if eb is not None else ({"fall"}, set())
+        if has_rest and kt == {"ret"} and ke == {"ret"}:
+            raise OutOfGrammar("%s: statement after an if whose branches both return (unreachable)" % self.what)
         if kt == {"ret"}:
             a = self.block(tb, 0, env, lambda e: self.oog("fall-through after a returning branch"), ret)
             b = self.block(eb, 0, env, rest, ret) if eb is not None else rest(env)
